@@ -41,7 +41,10 @@ class DPTValue1ByteUnsigned(DPTNumeric):
         """Serialize to KNX/IP raw data."""
         try:
             knx_value = int(value)
-            if not cls._test_boundaries(knx_value):
+            if not cls._test_boundaries(knx_value) or (
+                # int() truncates towards zero - a fraction beyond a limit is out of range
+                isinstance(value, float) and not cls._test_boundaries(value)  # type: ignore[arg-type]
+            ):
                 raise ValueError(f"Value out of range {cls.value_min}..{cls.value_max}")
             return DPTArray(knx_value)
         except (ValueError, OverflowError) as err:
